@@ -212,17 +212,27 @@ def rule_scan(facts, rep):
         rep.check(hir.lit_val(lets.get("best_index")) == start, "scan", path, f"best-starts-at-{start}",
                   f"the first candidate is index {start}", loc(b))
 
-        def dist_of(e, idx_name):
+        def dist_of(e, idx_name, value=None):
             e = hir.simp(e)
             if not hir.is_call(e, L + "distance"):
                 return False
             t = hir.simp(e["args"][1])
-            return hir.is_local(e["args"][0], "color") and t.get("k") == "index" and table_is(t["e"]) and hir.is_local(t["i"], idx_name)
+            if not (hir.is_local(e["args"][0], "color") and t.get("k") == "index" and table_is(t["e"])):
+                return False
+            if hir.is_local(t["i"], idx_name):
+                return True
+            # the same number written another way (the start constant itself instead of the variable just set to it)
+            return value is not None and hir.const_fold(t["i"], {}) == value
 
-        rep.check(dist_of(lets.get("best_distance", {}), "best_index"), "scan", path, "best-distance-of-first-candidate", "", loc(b))
-        i0 = hir.simp(lets.get("index", {}))
-        rep.check(i0.get("k") == "bin" and i0["op"] == "Add" and hir.is_local(i0["l"], "best_index") and hir.lit_val(i0["r"]) == 1, "scan", path,
-                  "index-starts-after-first", "", loc(b))
+        def initial(e):
+            """value of an initialiser in which `best_index` still has its initial value"""
+            import poly
+            try:
+                return poly.as_const(poly.poly(e, resolve=lambda n: poly.const(start) if (hir.simp(n).get("k") == "local" and hir.simp(n)["name"] == "best_index") else None))
+            except Unrecognised:
+                return None
+        rep.check(dist_of(lets.get("best_distance", {}), "best_index", start), "scan", path, "best-distance-of-first-candidate", "", loc(b))
+        rep.check(initial(lets.get("index", {})) == start + 1, "scan", path, "index-starts-after-first", f"index starts at {initial(lets.get('index', {}))}", loc(b))
         wl = [hir.while_loop(n) for n in top if hir.simp(n).get("k") == "loop" and hir.simp(n).get("src") == "While"]
         if len(wl) != 1:
             raise Unrecognised("one while loop expected")
